@@ -81,6 +81,15 @@ func runC15(w *World, c *Check) {
 		fa := NewFuncAn(w, fn)
 		z := fa.MatchGuard(EqPass("0", `credentials\.readInt8\(.*\)`))
 		okS := len(z) > 0
+		if !okS {
+			// the expression form: IsSKey = readInt8(…) != 0
+			for _, st := range fa.storesTo(`.*\.IsSKey`) {
+				v := fa.R.R(st.Val)
+				if fullMatch(`\((0 != credentials\.readInt8\(.*\)|credentials\.readInt8\(.*\) != 0)\)`, v) {
+					okS = true
+				}
+			}
+		}
 		c.Decide(okS, "C15.layout", FuncKey(fn), "is_skey", w.Pos(fn.Pos()), "is_skey is false exactly when the byte is zero", "no zero test of the is_skey byte")
 	}
 
@@ -177,10 +186,12 @@ func runC15(w *World, c *Check) {
 		get := fa.Calls(`credentials\.\(\*CCache\)\.GetEntry`)
 		okSPN := false
 		var names []string
-		for _, st := range fa.storesTo(`local<types\.PrincipalName>\.NameString`) {
-			names = append(names, fa.R.R(st.Val))
-			if v := fa.R.R(st.Val); fa.M(`\["krbtgt", c\.DefaultPrincipal\.Realm\]`, v) {
-				okSPN = true
+		for _, a := range fa.withNewHelpers() {
+			for _, st := range a.storesTo(`local<types\.PrincipalName>(#\d+)?\.NameString`) {
+				names = append(names, a.R.R(st.Val))
+				if v := a.R.R(st.Val); fa.M(`\["krbtgt", c\.DefaultPrincipal\.Realm\]`, v) {
+					okSPN = true
+				}
 			}
 		}
 		c.Decide(len(get) == 1 && okSPN, "C15.client", fk, "tgt-spn", w.Pos(fn.Pos()), "the TGT looked up is krbtgt/<default principal's realm>", fmt.Sprintf("NameString stores: %v", names))
